@@ -630,7 +630,7 @@ func c06Run(c *fw.Ctx, i int) {
 		return
 	}
 	defer tsSub.Close()
-	s.Notify.WaitSession(5*time.Second, "sub_start", tsSub.Conn.LocalAddr().String())
+	s.Notify.WaitSession(5*time.Second, "sub_start", srv.Key(tsSub.Conn))
 	cons := []*c06Consumer{{Kind: "rtsp-tcp", JoinAt: nHdr + c.Rng.Intn(len(msgs)/2)}, {Kind: "rtsp-udp", JoinAt: nHdr + c.Rng.Intn(len(msgs)/2)}, {Kind: "ts-late", JoinAt: nHdr + c.Rng.Intn(len(msgs)/2)}}
 	pub, err := ref.StartRtmpPublisher(s.RtmpAddr(), "live", name, 5*time.Second)
 	if err != nil {
@@ -638,7 +638,7 @@ func c06Run(c *fw.Ctx, i int) {
 		return
 	}
 	defer pub.Close()
-	if _, ok := s.Notify.WaitSession(5*time.Second, "pub_start", pub.RC.Conn.LocalAddr().String()); !ok {
+	if _, ok := s.Notify.WaitSession(5*time.Second, "pub_start", srv.Key(pub.RC.Conn)); !ok {
 		c.Inconclusive("publisher not accepted")
 		return
 	}
@@ -661,7 +661,7 @@ func c06Run(c *fw.Ctx, i int) {
 				if err != nil {
 					cn.err = err.Error()
 				} else {
-					s.Notify.WaitSession(5*time.Second, "sub_start", cn.http.Conn.LocalAddr().String())
+					s.Notify.WaitSession(5*time.Second, "sub_start", srv.Key(cn.http.Conn))
 				}
 			default:
 				// asynchronous: DESCRIBE is answered only once lal has built the SDP, which may need
@@ -747,7 +747,7 @@ func c06Run(c *fw.Ctx, i int) {
 		}
 	}
 	quiet()
-	paddr := pub.RC.Conn.LocalAddr().String()
+	paddr := srv.Key(pub.RC.Conn)
 	pub.Close()
 	s.Notify.WaitSession(5*time.Second, "pub_stop", paddr)
 	quiet()
